@@ -52,48 +52,58 @@ fn build_config(n: &BuildNode) -> BuildConfig {
     cfg
 }
 
+fn container_config(cfg: &simcore::e4::scenario::ContainerCfg) -> ContainerConfig {
+    let mut cc = ContainerConfig::new();
+    if let Some(e) = &cfg.entrypoint {
+        cc.entrypoint(e.clone());
+    }
+    if let Some(c) = &cfg.command {
+        cc.command(c.clone());
+    }
+    for (k, v) in &cfg.env {
+        cc.env(k.clone(), v.clone());
+    }
+    for p in &cfg.ports {
+        cc.expose_port(*p);
+    }
+    for (s, t) in &cfg.mounts {
+        cc.bind_mount(s.clone(), t.clone());
+    }
+    cc
+}
+
+fn start(context: &TestContext, cfg: &simcore::e4::scenario::ContainerCfg, steps: &[CStep]) {
+    context.start_container(container_config(cfg), |container| {
+        for cs in steps {
+            position("container step");
+            match cs {
+                CStep::LogsNow => {
+                    let _ = container.logs_now();
+                }
+                CStep::LogsWait => {
+                    let _ = container.logs_wait();
+                }
+                CStep::AddressForPort(p) => {
+                    let _ = container.address_for_port(*p);
+                }
+                CStep::ShellExec(c) => {
+                    let _ = container.shell_exec(c);
+                }
+                CStep::Nested { cfg, steps } => start(context, cfg, steps),
+            }
+        }
+        position("end of container closure");
+    });
+}
+
 fn run_steps(ctx: TestContext, n: &BuildNode) {
     let mut ctx = Some(ctx);
     for step in &n.steps {
         position("build step");
         match step {
             Step::StartContainer { cfg, steps } => {
-                let mut cc = ContainerConfig::new();
-                if let Some(e) = &cfg.entrypoint {
-                    cc.entrypoint(e.clone());
-                }
-                if let Some(c) = &cfg.command {
-                    cc.command(c.clone());
-                }
-                for (k, v) in &cfg.env {
-                    cc.env(k.clone(), v.clone());
-                }
-                for p in &cfg.ports {
-                    cc.expose_port(*p);
-                }
-                for (s, t) in &cfg.mounts {
-                    cc.bind_mount(s.clone(), t.clone());
-                }
-                ctx.as_ref().expect("context").start_container(cc, |container| {
-                    for cs in steps {
-                        position("container step");
-                        match cs {
-                            CStep::LogsNow => {
-                                let _ = container.logs_now();
-                            }
-                            CStep::LogsWait => {
-                                let _ = container.logs_wait();
-                            }
-                            CStep::AddressForPort(p) => {
-                                let _ = container.address_for_port(*p);
-                            }
-                            CStep::ShellExec(c) => {
-                                let _ = container.shell_exec(c);
-                            }
-                        }
-                    }
-                    position("end of container closure");
-                });
+                let context = ctx.as_ref().expect("context");
+                start(context, cfg, steps);
             }
             Step::RunShell(c) => {
                 let _ = ctx.as_ref().expect("context").run_shell_command(c.clone());
